@@ -81,6 +81,20 @@ async fn read_event_buffer(
     let offset = record.value();
     let row_len = offset.end - offset.start;
 
+    // Length is untrusted so check the file contains
+    // the event data before allocating the buffer
+    let file_len = vfs::metadata(file_path.as_ref()).await?.len();
+    if offset.end > file_len {
+        return Err(std::io::Error::new(
+            std::io::ErrorKind::UnexpectedEof,
+            format!(
+                "event data {}..{} is out of bounds, file length is {}",
+                offset.start, offset.end, file_len
+            ),
+        )
+        .into());
+    }
+
     guard.seek(SeekFrom::Start(offset.start)).await?;
 
     let mut buf = vec![0u8; row_len as usize];
@@ -554,14 +568,7 @@ where
         &self,
         item: &EventLogRecord,
     ) -> StdResult<T, E> {
-        let value = item.value();
-
-        let file = File::open(&self.data).await?;
-        let mut guard = file.lock_read().await.map_err(|e| e.error)?;
-
-        guard.seek(SeekFrom::Start(value.start)).await?;
-        let mut buffer = vec![0; (value.end - value.start) as usize];
-        guard.read_exact(buffer.as_mut_slice()).await?;
+        let mut buffer = read_event_buffer(&self.data, item).await?;
 
         let mut stream = BufReader::new(Cursor::new(&mut buffer));
         let mut reader = BinaryReader::new(&mut stream, encoding_options());
